@@ -8,6 +8,8 @@ Local Open Scope N_scope.
 Definition byte := N.             (* invariant: < 256 *)
 Definition bstr := list byte.
 Definition f32  := N.             (* IEEE-754 binary32 bit pattern, < 2^32 *)
+(* r == 0 for a float: plus or minus zero (a NaN is not zero) *)
+Definition f32_is_zero (r : f32) : bool := N.land r 2147483647 =? 0.
 Definition usize := N.            (* size_t; arithmetic mod 2^64 where the code wraps *)
 
 Definition two64 : N := 18446744073709551616.
